@@ -434,7 +434,7 @@ def build(u):
                 e9=[("Error::Hex(hex_encoded_key.to_string(), e)", None, "hex_encoded_key: &str, e: hex::FromHexError", "hex_encoded_key, e", "Error", "",
                      dict(name="vx_e9_hex_error", local=True))],
                 contract="""
-        ensures r matches Ok(s) ==> s@ == mac_spec(hex_encoded_key@, input_to_sign@),  // @C04.compute_signature.mac_is_hex_hmac_sha256_under_the_key
+        ensures r matches Ok(s) ==> s@ == mac_spec(hex_encoded_key@, input_to_sign@),  // @C04+C10.compute_signature.mac_is_hex_hmac_sha256_under_the_key
 """)
         with u.mod("hyper_client", uses="use super::error::{Error, HyperErrorType};\nuse super::result::Result;\nuse super::{constants, helpers};\nuse http::request::Builder;\nuse http::request::Parts;\nuse http::Method;\nuse hyper::body::Bytes;\nuse hyper::Request;\nuse hyper::Uri;\nuse itertools::Itertools;\nuse std::collections::HashMap;\nuse crate::proxy_agent_shared::misc_helpers;\nuse http_body_util::combinators::BoxBody;\nuse serde::de::DeserializeOwned;\npub use crate::vx_ext_send::send_request;"):
             u.take(hc, "LF", "const")
